@@ -77,6 +77,40 @@ fn ed_torsion() -> Vec<Ed> {
     }
 }
 
+/// The native (plain curve, no carriers) twin of a scenario kind.
+fn native_for<G: ark_ec::AffineRepr + 'static>(kind: &str, rp: &serde_json::Value, seed: u64, m: HashMap<String, String>, torsion: Option<Vec<G>>) -> Vec<(String, bool)> {
+    let shape = || -> r1cs::Shape { serde_json::from_value(rp["shape"].clone()).unwrap() };
+    match kind {
+        "c10" => {
+            let case: scen_c10::IppCase = serde_json::from_value(rp["case"].clone()).unwrap();
+            replay::c10_native::<G>(&case, seed, m)
+        }
+        "c13" => replay::c13_native::<G>(rp["variant"].as_str().unwrap(), seed, m),
+        "c03" | "c18" => replay::diff_native::<G>(&shape(), seed, torsion),
+        "c16" => scen_c16::enumerate_opt::<G>(rp["max1"].as_u64().unwrap() as usize, rp["max2"].as_u64().unwrap() as usize, seed, |s| Box::new(job::PlainVals::<r1cs::FOf<G>>::new(HashMap::new(), s)), true).1,
+        "c04bits" => scen_c04::bitflip_native::<G>(seed, rp["stride"].as_u64().unwrap_or(3) as usize),
+        "c08" => scen_native::c08_native::<G>(seed, rp["maxlen"].as_u64().unwrap_or(3) as usize),
+        "c11" => scen_native::c11_native::<G>(seed, torsion),
+        "c12" => scen_native::c12_native::<G>(rp["maxlen"].as_u64().unwrap_or(3) as usize + 1),
+        "c17" => scen_c17::capacity_grid::<G>(&shape(), seed, || Box::new(job::PlainVals::<r1cs::FOf<G>>::new(HashMap::new(), seed))),
+        "c04" => {
+            let case: scen_c04::C04Case = serde_json::from_value(rp["case"].clone()).unwrap();
+            scen_c04::c04_native::<G>(&case, seed)
+        }
+        "c05" => {
+            let case: scen_c05::C05Case = serde_json::from_value(rp["case"].clone()).unwrap();
+            scen_c05::c05_native::<G>(&case, seed, m, torsion)
+        }
+        "c09" => replay::c09_native::<G>(&shape(), seed),
+        "c06" => replay::c06_native::<G>(&shape(), seed),
+        "c07" => {
+            let case: scen_c07::BatchCase = serde_json::from_value(rp["case"].clone()).unwrap();
+            replay::c07_native::<G>(&case, seed, m)
+        }
+        _ => replay::c15_native::<r1cs::FOf<G>>(rp["batch"].as_u64().unwrap(), rp["ntrees"].as_u64().unwrap() as usize, seed, m),
+    }
+}
+
 fn native_job(prop: &str, name: &str, curve: &str, seed: u64, checks: Vec<(String, bool)>, replay: serde_json::Value) -> Job {
     let mut job = Job { property: prop.into(), scenario: format!("{}:{}:{}", prop, name, curve), curve: curve.into(), seed, ..Default::default() };
     for (n, ok) in checks {
@@ -146,9 +180,10 @@ fn tasks_for(prop: &str, tier: &str, seed: u64) -> Vec<Task> {
                     out.push(Task {
                         name: format!("C03:{}:{}", shape.name, c),
                         replay: serde_json::json!({"kind": "c03", "shape": scen_r1cs::shape_json(&shape), "seed": seed}),
-                        run: Box::new(move || {
-                            use scen_c03::job_c03 as f;
-                            on_curve!(c.as_str(), f, &shape, seed, &c)
+                        run: Box::new(move || match c.as_str() {
+                            "secq256k1" => scen_c03::job_c03::<Secq>(&shape, seed, &c, None),
+                            "zorro" => scen_c03::job_c03::<Zorro>(&shape, seed, &c, None),
+                            _ => scen_c03::job_c03::<Ed>(&shape, seed, &c, Some(ed_torsion())),
                         }),
                     });
                 }
@@ -213,9 +248,10 @@ fn tasks_for(prop: &str, tier: &str, seed: u64) -> Vec<Task> {
                     out.push(Task {
                         name: format!("C18:{}:{}", shape.name, c),
                         replay: serde_json::json!({"kind": "c18", "shape": scen_r1cs::shape_json(&shape), "seed": seed}),
-                        run: Box::new(move || {
-                            use scen_c18::job_c18 as f;
-                            on_curve!(c.as_str(), f, &shape, seed, &c)
+                        run: Box::new(move || match c.as_str() {
+                            "secq256k1" => scen_c18::job_c18::<Secq>(&shape, seed, &c, None),
+                            "zorro" => scen_c18::job_c18::<Zorro>(&shape, seed, &c, None),
+                            _ => scen_c18::job_c18::<Ed>(&shape, seed, &c, Some(ed_torsion())),
                         }),
                     });
                 }
@@ -294,15 +330,16 @@ fn tasks_for(prop: &str, tier: &str, seed: u64) -> Vec<Task> {
         "C05" => {
             let mut out = vec![];
             for (k, case) in scen_c05::c05_cases(thorough).into_iter().enumerate() {
-                let cs: Vec<&str> = if thorough { curves.clone() } else { vec![["secq256k1", "zorro", "curve25519"][k % 3]] };
+                let cs: Vec<&str> = if matches!(case.dev, scen_c05::Dev::ReplaceVTorsion(_)) { vec!["curve25519"] } else if thorough { curves.clone() } else { vec![["secq256k1", "zorro", "curve25519"][k % 3]] };
                 for c in cs {
                     let (case, c) = (case.clone(), c.to_string());
                     out.push(Task {
                         name: format!("C05:{}:{}", case.name, c),
                         replay: serde_json::json!({"kind": "c05", "case": case, "seed": seed}),
-                        run: Box::new(move || {
-                            use scen_c05::job_c05 as f;
-                            on_curve!(c.as_str(), f, &case, seed, &c)
+                        run: Box::new(move || match c.as_str() {
+                            "secq256k1" => scen_c05::job_c05::<Secq>(&case, seed, &c, None),
+                            "zorro" => scen_c05::job_c05::<Zorro>(&case, seed, &c, None),
+                            _ => scen_c05::job_c05::<Ed>(&case, seed, &c, Some(ed_torsion())),
                         }),
                     });
                 }
@@ -555,57 +592,30 @@ fn main() {
                 }
                 Some(kind @ ("c10" | "c13" | "c15" | "c07" | "c06" | "c09" | "c05" | "c04" | "c03" | "c18" | "c17" | "c16" | "c08" | "c11" | "c12" | "c04bits")) => {
                     let seed = rp["seed"].as_u64().unwrap_or(0);
+                    let curve = v["curve"].as_str().or(rp["curve"].as_str()).unwrap_or("secq256k1").to_string();
                     let mut any_wrong = false;
                     for (k, m) in [(0u64, model.clone()), (1, HashMap::new()), (2, HashMap::new())] {
-                        let checks = std::panic::catch_unwind(|| match kind {
-                            "c10" => {
-                                let case: scen_c10::IppCase = serde_json::from_value(rp["case"].clone()).unwrap();
-                                replay::c10_native::<Secq>(&case, seed + k, m)
+                        // always on secq256k1, and on the curve of the failing scenario when it is another one
+                        let mut runs: Vec<(&str, std::thread::Result<Vec<(String, bool)>>)> = vec![];
+                        runs.push(("secq256k1", std::panic::catch_unwind(|| native_for::<Secq>(kind, rp, seed + k, m.clone(), None))));
+                        if curve == "zorro" {
+                            runs.push(("zorro", std::panic::catch_unwind(|| native_for::<Zorro>(kind, rp, seed + k, m.clone(), None))));
+                        }
+                        if curve == "curve25519" {
+                            runs.push(("curve25519", std::panic::catch_unwind(|| native_for::<Ed>(kind, rp, seed + k, m.clone(), Some(ed_torsion())))));
+                        }
+                        for (c, checks) in runs {
+                            println!("native run on {}", c);
+                            match checks {
+                                Ok(cs) => any_wrong |= replay::report(cs),
+                                Err(_) => {
+                                    println!("native run: PANIC in the code under test");
+                                    any_wrong = true;
+                                }
                             }
-                            "c13" => replay::c13_native::<Secq>(rp["variant"].as_str().unwrap(), seed + k, m),
-                            "c03" | "c18" => {
-                                let shape: r1cs::Shape = serde_json::from_value(rp["shape"].clone()).unwrap();
-                                replay::diff_native::<Secq>(&shape, seed + k)
-                            }
-                            "c16" => scen_c16::enumerate_opt::<Secq>(rp["max1"].as_u64().unwrap() as usize, rp["max2"].as_u64().unwrap() as usize, seed + k, |s| Box::new(job::PlainVals::<ark_secq256k1::Fr>::new(HashMap::new(), s)), true).1,
-                            "c04bits" => scen_c04::bitflip_native::<Secq>(seed, rp["stride"].as_u64().unwrap_or(3) as usize),
-                            "c08" => scen_native::c08_native::<Secq>(seed, rp["maxlen"].as_u64().unwrap_or(3) as usize),
-                            "c11" => {
-                                if rp["curve"].as_str() == Some("curve25519") { scen_native::c11_native::<Ed>(seed, Some(ed_torsion())) } else { scen_native::c11_native::<Secq>(seed, None) }
-                            }
-                            "c12" => scen_native::c12_native::<Secq>(rp["maxlen"].as_u64().unwrap_or(3) as usize + 1),
-                            "c17" => {
-                                let shape: r1cs::Shape = serde_json::from_value(rp["shape"].clone()).unwrap();
-                                scen_c17::capacity_grid::<Secq>(&shape, seed + k, || Box::new(job::PlainVals::<ark_secq256k1::Fr>::new(HashMap::new(), seed + k)))
-                            }
-                            "c04" => {
-                                let case: scen_c04::C04Case = serde_json::from_value(rp["case"].clone()).unwrap();
-                                scen_c04::c04_native::<Secq>(&case, seed + k)
-                            }
-                            "c05" => {
-                                let case: scen_c05::C05Case = serde_json::from_value(rp["case"].clone()).unwrap();
-                                scen_c05::c05_native::<Secq>(&case, seed + k, m)
-                            }
-                            "c09" => {
-                                let shape: r1cs::Shape = serde_json::from_value(rp["shape"].clone()).unwrap();
-                                replay::c09_native::<Secq>(&shape, seed + k)
-                            }
-                            "c06" => {
-                                let shape: r1cs::Shape = serde_json::from_value(rp["shape"].clone()).unwrap();
-                                replay::c06_native::<Secq>(&shape, seed + k)
-                            }
-                            "c07" => {
-                                let case: scen_c07::BatchCase = serde_json::from_value(rp["case"].clone()).unwrap();
-                                replay::c07_native::<Secq>(&case, seed + k, m)
-                            }
-                            _ => replay::c15_native::<ark_secq256k1::Fr>(rp["batch"].as_u64().unwrap(), rp["ntrees"].as_u64().unwrap() as usize, seed, m),
-                        });
-                        match checks {
-                            Ok(c) => any_wrong |= replay::report(c),
-                            Err(_) => {
-                                println!("native run: PANIC in the code under test");
-                                any_wrong = true;
-                            }
+                        }
+                        if any_wrong {
+                            break;
                         }
                     }
                     println!("REPLAY {}", if any_wrong { "REPRODUCED" } else { "NOT-REPRODUCED" });
